@@ -63,6 +63,15 @@ def dispatchC18 : Dispatch := fun op args =>
   | "c18.rlp.encode", [n, v] => withVal n v derWidth fun n a => bytesToTok (rlpEncode n a)
   | "c18.rlp.decode", [n, b] => withBytes n b rlpDecWidth fun n bs =>
       two (rlpDecode n bs) (rlpSpecDecode n bs)
+  | "c18.rlp.list3", [n, v1, v2, v3] =>
+    match n.toNat?, hexToNat? v1, hexToNat? v2, hexToNat? v3 with
+    | some n, some a, some b, some c =>
+      if !rlpDecWidth n then some "unsupported-width" else
+      let lim := fun (x : Nat) => toLimbs n x
+      let items := [rlpEncode n (lim a), rlpEncode n (lim b), rlpEncode n (lim c)]
+      let dec := fun (x : Nat) => decTok (rlpDecode n (rlpEncode n (lim x)))
+      some s!"{bytesToTok (rlpListOf items)} 3 {dec a} {dec b} {dec c}"
+    | _, _, _, _ => badArgs
   | "c18.rlp.list1", [n, v] => withVal n v rlpDecWidth fun n a =>
       s!"{bytesToTok (rlpList1 n a)} {decTok (rlpDecode n (rlpEncode n a))}"
   | _, _ => none
